@@ -27,7 +27,7 @@ BRANCHES = ["BR", "BL", "BGE", "BLE", "BG", "BULE", "BUG", "BZ", "BNZ", "BC", "B
 
 
 def gen_ops(rng, quick):
-    n = 6 if quick else 60
+    n = 20 if quick else 120
     vals = [0, 1, 127, 128, 255, 256, 0x7FFF, 0x8000, 0xFFFF, -1, -128, -32768, 0xC001, 0x1080, 0x00FF, 65535]
     labels = [0, 1, 127, 128, 200, 255, 256, 300, 0x1234, 0x7FFF, 0x8000, 0xFF80, 65535]
     out = []
